@@ -462,7 +462,18 @@ func judgeTerm(sc *Scenario, res *result) (misses []miss, classes []string) {
 			}
 		}
 	}
-	if res.ActiveAtEnd > 0 && res.ActiveLiveness == "proxy-alive" {
+	retriedAfterClaim := false
+	for _, a := range res.Arrivals {
+		if len(trueCalls) > 0 && a.At.After(trueCalls[0].at) {
+			retriedAfterClaim = true
+		}
+	}
+	if res.ActiveAtEnd > 0 && res.ActiveLiveness == "proxy-alive" && retriedAfterClaim && first == nil {
+		// the listed finding's sibling: the call claimed the request while the worker was setting up a retry (an upstream
+		// failure handled in the same moment); the worker's next phase drains the notification, sends the retry attempt
+		// and then waits for an event that cannot come - the timers are stopped and the claim makes every later answer lose
+		add(true, "never-completes:terminated-while-a-retry-was-being-set-up", "TerminateStream returned true at %d us, a retry attempt still reached an upstream afterwards, the client never got a reply and the request is still active %d us after the start (calls %+v)", trueCalls[0].AtUs, res.ActiveAfterUs, res.Term)
+	} else if res.ActiveAtEnd > 0 && res.ActiveLiveness == "proxy-alive" {
 		add(true, "never-completes:request-still-active-after-its-outcome:"+sc.Proto, "%d request(s) still active in the proxy %d us after the start (calls %+v)", res.ActiveAtEnd, res.ActiveAfterUs, res.Term)
 	}
 	for _, a := range res.Arrivals {
